@@ -87,7 +87,7 @@ mut("e2-benign-cmp-flip", ["C19", "C01", "C02"], "geometry/raycast.go",
     kind="benign", note="comparisons written the other way round")
 
 # ---------------- E3 effects / ownership ----------------
-mut("e3-lazy-index", ["C16", "C04"], "geometry/series.go",
+mut("e3-lazy-index", ["C16"], "geometry/series.go",
     "\tswitch v := series.index.(type) {\n\tdefault:",
     "\tif series.index == nil && len(series.points) >= 4096 {\n\t\tseries.indexKind = QuadTree\n\t\tseries.buildIndex()\n\t}\n\tswitch v := series.index.(type) {\n\tdefault:",
     "E3", note="index built lazily inside Search (write to shared object from a query)", sentinel=True)
